@@ -41,7 +41,8 @@ def stats(cases):
     return {"observations_by_actor": kinds, "table_status_at_observation": tstat, "bot_views_answered": bot_moved, "bot_views_silent": bot_silent,
             "stale_views_shown_to_bots": stale, "player_runner_requests": player_obs, "player_runner_status": statuses, "moves_recorded": moves,
             "observer_views_system": obs_sys, "observer_views_filtered": obs_non, "bots_only_tables": bots_tables, "bots_only_hands_settled": bots_hands,
-            "bots_only_calls": bots_calls}
+            "bots_only_calls": bots_calls,
+            "bot_views_at_sizing_edges": sum(1 for c in cases for o in c.get("observations") or [] if o.get("edge_of_sizing_rules"))}
 
 
 def run_actor(res, codes, clause_names, model_steps, replay=None, plans=None, extra_assumptions=()):
